@@ -54,11 +54,12 @@ def mc_cfg_text(m):
              "  Cfg <- " + m.get("cfg", "CfgHeap"),
              "  Alpha = " + _set(m["alpha"]),
              "  MaxLen = %d" % m.get("MaxLen", 3),
+             "  MaxLenB = %d" % m.get("MaxLenB", m.get("MaxLen", 3)),
              "  MaxExt = %d" % m.get("MaxExt", 1),
+             "  OneHandle = %s" % ("TRUE" if m.get("OneHandle", False) else "FALSE"),
              "  MaxOut = %d" % m.get("MaxOut", 0),
              "  MaxRepl = %d" % m.get("MaxRepl", 0),
              "  MaxIters = %d" % m.get("MaxIters", 1),
-             "  MaxDepth = %d" % m.get("MaxDepth", 40),
              "  Srcs = " + _set(m.get("srcs", ["wrapper", "raw", "typed"])),
              "  Forms = " + _set(m.get("forms", [])),
              "VIEW View", "ACTION_CONSTRAINT Emit",
@@ -134,7 +135,8 @@ def run_replay_shard(binp, config, cases, out, shard, nshards, nvecs, timeout=18
             pass
         if r.returncode == 0 and last.startswith("DONE"):
             _, n, nondet = last.split()
-            return {"file": out, "nodes": int(n), "nondet": int(nondet), "crashes": crashes, "log": r.stdout[-2000:]}
+            nd = [tuple(map(int, l.split()[1:3])) for l in lines if l.startswith("NONDET")]
+            return {"file": out, "nodes": int(n), "nondet": nd, "crashes": crashes, "log": r.stdout[-2000:]}
         if r.returncode == 3:
             raise ToolError("harness driver error: " + r.stdout[-2000:])
         # crashed (signal / abort): the last marker names the running case
@@ -205,7 +207,7 @@ def campaign(binp, config, cases, tag, nvecs=2, nshards=8, keep=False):
                 seen.add(k)
                 viols.append(x)
     crashes = [c for r in reps for c in r["crashes"]]
-    nondet = sum(r["nondet"] for r in reps)
+    nondet = [x for r in reps for x in r["nondet"]]
     # events of violating nodes, for the replay files
     want = {v["node"] for v in viols}
     events = {}
